@@ -126,6 +126,15 @@ def check_text(clsname, text, offsets=None, source=None, prev=None):
             if li.line > len(lines) or la > len(lines) + 1 or li.line < 0:
                 fails.append((p, dict(bucket=f'{clsname}:eof-line', oracle='at p == len: line <= number of lines',
                                       expected=f'<= {len(lines)}', observed=(li.line, la))))
+            elif text and text[-1] not in '\r\n':
+                # the end of a text whose last line has no terminator is unambiguous: it is on that last line, one column past its last
+                # character (after a terminator it could be read as the end of that line or as an empty line after it: not judged)
+                ln, s, l = len(lines) - 1, len(text) - len(lines[-1]), lines[-1]
+                want = (ln, len(l), ln, len(l))
+                got = (li.line, li.col, la, pc)
+                if got != want:
+                    fails.append((p, dict(bucket=f'{clsname}:end-of-text', oracle='at p == len of a text without a final terminator: (lineinfo.line, lineinfo.col, lineat, poscol) == (last line, its length, last line, its length)',
+                                          expected=want, observed=got)))
     return fails
 
 
@@ -209,6 +218,14 @@ def run_lines(sh, index, nshards, maxlen, nhyp):
             for p, d in fails:
                 sh.fail(d['bucket'], dict(kind='lines', cls=clsname, text=text, offset=p), d)
     hyp_run(sh, longtexts, body, nhyp, label='long')
+
+
+def _f_c12_b(case, detail):
+    """only the position one past the last character of a text without a final terminator"""
+    return case.get('kind') == 'lines' and detail.get('bucket', '').endswith(':end-of-text') and case.get('offset') == len(case.get('text', ''))
+
+
+EXCLUSIONS = {'F-C12-b': _f_c12_b}
 
 
 def replay(case):
